@@ -21,6 +21,27 @@ REQ = ["subnets", "topology", "sensitive_hosts", "os", "services", "processes", 
        "process_scan_cost", "host_configurations", "firewall"]
 
 
+def unknown_names(y, sec, none_is_valid=False):
+    """(tag, name) pairs: strings that are NOT an entry of y[sec] - a plain unknown word, the spellings of
+    'none' (only OS-agnostic exploits / escalations may say that), an entry of another list, another
+    capitalisation or padding of a valid entry, the empty string"""
+    have = set(y[sec])
+    out = [("", "nonexistent")]
+    if not none_is_valid:
+        out += [("-None", "None"), ("-none", "none"), ("-NONE", "NONE")]
+    other = [n for k in ("os", "services", "processes") if k != sec for n in y[k]]
+    v0 = y[sec][0]
+    out += [("-other-list", other[0] if other else "x"), ("-other-list-last", other[-1] if other else "y"),
+            ("-upper", str(v0).upper()), ("-capitalised", str(v0).capitalize() if str(v0).capitalize() != v0 else str(v0).swapcase()),
+            ("-padded", str(v0) + " "), ("-prefix", str(v0)[:-1] if len(str(v0)) > 1 else str(v0) + "x"), ("-empty", "")]
+    seen = set()
+    for tag, n in out:
+        if n in have or n in seen or (none_is_valid and str(n).lower() == "none"):
+            continue
+        seen.add(n)
+        yield tag, n
+
+
 def mutations(y):
     """y: YAML object of a VALID document (string keys).  Yields (rule, mutant);
     every mutant breaks exactly the named documented rule."""
@@ -70,8 +91,10 @@ def mutations(y):
         n0, n1 = names[0], names[-1]
         for f in fields:
             d = m(); del d[sec][n0][f]; yield f"{sec}-missing-{f}", d
-        d = m(); d[sec][n1][tgt] = "nonexistent"; yield f"{sec}-unknown-{tgt}", d
-        d = m(); d[sec][n0]["os"] = "nonexistent"; yield f"{sec}-unknown-os", d
+        for tag, bad in unknown_names(y, tgt + ("s" if tgt == "service" else "es")):
+            d = m(); d[sec][n1][tgt] = bad; yield f"{sec}-unknown-{tgt}{tag}", d
+        for tag, bad in unknown_names(y, "os", none_is_valid=True):
+            d = m(); d[sec][n0]["os"] = bad; yield f"{sec}-unknown-os{tag}", d
         d = m(); d[sec][n1]["prob"] = 1.5; yield f"{sec}-prob-above-1", d
         d = m(); d[sec][n0]["prob"] = 1.0000001; yield f"{sec}-prob-just-above-1", d
         d = m(); d[sec][n0]["prob"] = -0.1; yield f"{sec}-prob-negative", d
@@ -97,9 +120,13 @@ def mutations(y):
         d = m(); c = d["host_configurations"].pop(h0); d["host_configurations"][alt_l] = c; yield "host-duplicate-by-spelling-last", d
     for f in ("os", "services", "processes"):
         d = m(); del d["host_configurations"][h0][f]; yield f"host-missing-{f}", d
-    d = m(); d["host_configurations"][hl]["services"].append("nonexistent"); yield "host-unknown-service", d
-    d = m(); d["host_configurations"][h0]["processes"].append("nonexistent"); yield "host-unknown-process", d
-    d = m(); d["host_configurations"][hl]["os"] = "nonexistent"; yield "host-unknown-os", d
+    for tag, bad in unknown_names(y, "services"):
+        d = m(); d["host_configurations"][hl]["services"].append(bad); yield f"host-unknown-service{tag}", d
+    for tag, bad in unknown_names(y, "processes"):
+        d = m(); d["host_configurations"][h0]["processes"].append(bad); yield f"host-unknown-process{tag}", d
+    for tag, bad in unknown_names(y, "os"):
+        d = m(); d["host_configurations"][hl]["os"] = bad; yield f"host-unknown-os{tag}", d
+    d = m(); d["host_configurations"][h0]["os"] = None; yield "host-os-null", d
     d = m(); s = d["host_configurations"][h0]["services"]; s.append(s[0]); yield "host-duplicate-service", d
     d = m(); s = d["host_configurations"][hl]["services"]; s.insert(0, s[0]); yield "host-duplicate-service-adjacent", d
     for hx in hc:
@@ -115,7 +142,8 @@ def mutations(y):
     d = m(); d["host_configurations"][h0]["firewall"] = {f"(1, {y['subnets'][0]})": [sv]}; yield "hostfw-host-off-by-one", d
     d = m(); d["host_configurations"][h0]["firewall"] = {f"({nsub + 1}, 0)": [sv]}; yield "hostfw-subnet-off-by-one", d
     d = m(); d["host_configurations"][hl]["firewall"] = {"(1, -1)": [sv]}; yield "hostfw-negative-host", d
-    d = m(); d["host_configurations"][hl]["firewall"] = {h0: ["nonexistent"]}; yield "hostfw-unknown-service", d
+    for tag, bad in unknown_names(y, "services"):
+        d = m(); d["host_configurations"][hl]["firewall"] = {h0: [bad]}; yield f"hostfw-unknown-service{tag}", d
     d = m(); d["host_configurations"][h0]["firewall"] = {hl: sv}; yield "hostfw-not-a-list", d
     d = m(); d["host_configurations"][h0]["firewall"] = {h0: [sv, sv]}; yield "hostfw-duplicate-service", d
     if len(y["services"]) > 1:
@@ -153,7 +181,8 @@ def mutations(y):
             d = m(); d["firewall"][fl] = [sv, s1, sv]; yield "firewall-duplicate-service-apart", d
             d = m(); d["firewall"][f0] = [s1, sv, s1, sv] if len(y["services"]) > 1 else [sv, sv]; yield "firewall-two-duplicates-apart", d
             d = m(); d["firewall"][f0] = list(y["services"]) + [y["services"][-1]]; yield "firewall-duplicate-last-of-full-list", d
-        d = m(); d["firewall"][fl] = [sv, "nonexistent"]; yield "firewall-unknown-service", d
+        for tag, bad in unknown_names(y, "services"):
+            d = m(); d["firewall"][fl] = [sv, bad]; yield f"firewall-unknown-service{tag}", d
     d = m(); d["step_limit"] = 0; yield "step-limit-zero", d
     d = m(); d["step_limit"] = -3; yield "step-limit-negative", d
 
